@@ -255,6 +255,7 @@ type srvRun struct {
 	panicked    bool
 	supportTls  bool
 	appLeak     bool
+	statuses    []int // status of every response written, in order
 }
 
 func runServerOnce(sec bool, certMode, peer string, chunks [][]byte, alt bool) (r srvRun) {
@@ -283,6 +284,7 @@ func runServerOnce(sec bool, certMode, peer string, chunks [][]byte, alt bool) (
 	for _, w := range conn.writes {
 		ws = append(ws, respText(w))
 		last = statusOf(w)
+		r.statuses = append(r.statuses, last)
 		r.raw += hexs(w) + "|"
 	}
 	wtxt := " w=" + strings.Join(ws, "|")
@@ -366,6 +368,16 @@ func hsServerSingle(op string) (string, string, string, bool, string) {
 	}
 	if mon == "" && !same {
 		mon = "outcome depends on segmentation"
+	}
+	// a refusal is final: once an error status has been written for a message of this stream the server must stop -
+	// no further answer, and above all no session, whatever bytes follow the refused message
+	if mon == "" {
+		for _, r := range runs {
+			if why := afterRefusal(r); why != "" {
+				mon = why
+				break
+			}
+		}
 	}
 	if mon == "" && r0.established {
 		if why := independentServerCheck(data, t[0] == "1", r0); why != "" {
@@ -810,7 +822,9 @@ func (hsServer) Gen(r *Rand, tier string, emit func(string)) {
 		}
 		send(strconv.Itoa(i%2), certs[i%len(certs)], "eof", base)
 	}
-	// 7. several peers at the same moment (c06_par.go)
+	// 7. what follows a refused message (c06_after_refusal.go)
+	hsServerAfterRefusalGen(r, tier, send)
+	// 8. several peers at the same moment (c06_par.go)
 	hsServerParGen(r, tier, emit)
 }
 
